@@ -35,7 +35,7 @@ struct Ctr {
 }
 
 macro_rules! share_job {
-  ($fname:ident, $subj:ty, $share:ident, $label:expr, $boxsub:ident, $box:ident) => {
+  ($fname:ident, $subj:ty, $share:ident, $label:expr, $boxsub:ident, $box:ident, $merge:ident) => {
     fn $fname(src: SrcKind, stage: Stage, len: usize) -> Job {
       Job::new(format!("{} {src:?} source behind {stage:?} L{len}", $label), move |ch, obs| {
         let _w = world::World::new();
@@ -94,6 +94,9 @@ macro_rules! share_job {
           let mut menu: Vec<(&str, usize)> = vec![];
           if probes.len() < MAX_SUBS {
             menu.push(("subscribe", 0));
+            // joins through `from_iter([100,101]).merge(shared).take(2)`: by the
+            // time merge subscribes the shared observable its observer has finished
+            menu.push(("subscribe-already-finished", 0));
           }
           for k in 0..handles.len() {
             if handles[k].is_some() {
@@ -102,6 +105,9 @@ macro_rules! share_job {
           }
           if src == SrcKind::Hot {
             menu.extend([("src next(0)", 0), ("src next(1)", 1), ("src complete", 0), ("src error", 0)]);
+          }
+          if menu.is_empty() {
+            break;
           }
           let (act, arg) = menu[ch.choose(menu.len())];
           ch.label(|| format!("{act}({arg})"));
@@ -123,6 +129,29 @@ macro_rules! share_job {
                   emitted.extend([V::I(0), V::I(1)]);
                   src_term = Some(Note::C);
                   got_term[probes.len() - 1] = true;
+                }
+              }
+            }
+            "subscribe-already-finished" => {
+              let p = Probe::new();
+              probes.push(p.clone());
+              joined_at.push(emitted.len());
+              left_at.push(None);
+              // what it receives from the share is not asserted (it asked for two
+              // items and has them); it counts as a subscriber of the share
+              exact.push(false);
+              got_term.push(false);
+              let first = !connected;
+              let joiner = observable::from_iter(vec![V::I(100), V::I(101)])
+                .on_error_map(inf)
+                .$merge(shared.clone())
+                .take(2);
+              handles.push(Some($boxsub::new(joiner.actual_subscribe(p))));
+              if first {
+                connected = true;
+                if src == SrcKind::Cold {
+                  emitted.extend([V::I(0), V::I(1)]);
+                  src_term = Some(Note::C);
                 }
               }
             }
@@ -235,8 +264,8 @@ macro_rules! share_job {
   };
 }
 
-share_job!(share_local, Subject<'static, V, E>, share, "share", BoxSubscription, BoxOp);
-share_job!(share_threads, SubjectThreads<V, E>, share_threads, "share_threads", BoxSubscriptionThreads, BoxOpThreads);
+share_job!(share_local, Subject<'static, V, E>, share, "share", BoxSubscription, BoxOp, merge);
+share_job!(share_threads, SubjectThreads<V, E>, share_threads, "share_threads", BoxSubscriptionThreads, BoxOpThreads, merge_threads);
 
 /// publish + fork + connect
 fn publish_job(src: SrcKind, len: usize) -> Job {
@@ -281,6 +310,9 @@ fn publish_job(src: SrcKind, len: usize) -> Job {
       }
       if src == SrcKind::Hot {
         menu.extend([("src next(0)", 0), ("src next(1)", 1), ("src complete", 0), ("src error", 0)]);
+      }
+      if menu.is_empty() {
+        break;
       }
       let (act, arg) = menu[ch.choose(menu.len())];
       ch.label(|| format!("{act}({arg})"));
